@@ -151,7 +151,7 @@ class History:
         doc = doc_text(inst, ct)
         code = rng.choice(self.codes) if rng.random() < 0.95 else 9999
         label = rng.choice([None, "lbl" + str(step), "Contract", "a b c"])
-        admin = rng.choice([None, None, self.accounts[3], self.accounts[0]])
+        admin = rng.choice([None, self.accounts[3], self.accounts[3], self.accounts[0]])
         funds = draw_funds(rng, rich=rng.random() < 0.9)
         salt = rng.choice([None, None, None, base64.b64encode(bytes(rng.randrange(256) for _ in range(rng.choice([1, 8, 32])))).decode()])
         sender = rng.choice(self.accounts[:4])
@@ -206,7 +206,11 @@ class History:
         elif k == "sudo":
             cb = {"op": "raw:sudo", "addr": addr, "doc": doc}
         else:
-            sender = admin if (admin and rng.random() < 0.7) else sender
+            with_admin = [c for c in self.contracts if c[1]]
+            if with_admin and rng.random() < 0.8:
+                addr, admin = rng.choice(with_admin)
+                ca["addr"] = addr
+            sender = admin if (admin and rng.random() < 0.8) else sender
             code = rng.choice(self.codes)
             ca.update(sender=sender, new_code_id=code)
             cb = {"op": "raw:execute", "sender": sender, "msg": {"wasm": {"migrate": {"contract_addr": addr, "new_code_id": code, "msg": b64s(doc)}}}}
